@@ -10,7 +10,7 @@ WINDOW_Q = [0, 1, 2, 3, 511, 512, 1022, 1023]
 META = dict(
     functions=['sysinfo.c: gsm48_decode_sysinfo4 (verbatim text, real sysinfo.h/gsm_04_08.h; other IE decoders stubbed) as caller of the decoder', 'sysinfo.c: gsm48_decode_mobile_alloc (verbatim text extracted from the working tree by brace matching, compiled with the FREQ_TYPE_* macros read from sysinfo.h)'],
     bounds=dict(quick='bitmap length len = 0..9, si4 in {0,1}; all 8*len bitmap bits symbolic (one variable per bit); cell allocation = symbolic membership of each ARFCN of the window %s (other ARFCNs absent), other mask bits of those entries symbolic; loops fully unrolled (1024 + 1024 + 64 iterations)' % WINDOW_Q,
-                thorough='as quick plus a 72-ARFCN window (the 8 above with symbolic membership + 64 consecutive ARFCNs that are always members) so that |CA| is 64..72 and the 64-entry output bound is exercised with all 64 bitmap bits symbolic'),
+                thorough='as quick plus a cell allocation of 72 ARFCNs (the 8 above + 64 consecutive ones, all members): 1- and 2-octet bitmaps fully symbolic, and the 8-octet bitmap with its first and last octet symbolic and the six in between all ones, so that all 64 output entries are used'),
     stubs=['LOGP -> empty', 'struct gsm_sysinfo_freq reduced to its mask octet (sizeof read from the compiler)', 'VLA via llvm.stacksave/alloca with the concrete size of each run'],
     outside=['cell allocations containing ARFCNs outside the window', 'callers (sysinfo.c:997, gsm48_rr.c:4021) are read for the buffer-size contract only: hopping[64], ma[len], freq[1024]'],
     assumptions=['order of 3GPP TS 44.018 10.5.2.21: ascending ARFCN with ARFCN 0 last; bit i (LSB of the last octet first) refers to the i-th cell channel'],
@@ -25,9 +25,11 @@ def jobs(tier, seed):
             out.append(('len=%d.si4=%d' % (L, si4), 'c_decode', dict(length=L, si4=si4, window=WINDOW_Q)))
     if tier == 'thorough':
         big = WINDOW_Q + list(range(100, 164))
-        for L in (1, 8):
-            for si4 in (0, 1):
-                out.append(('big.len=%d.si4=%d' % (L, si4), 'c_decode', dict(length=L, si4=si4, window=sorted(big), fixed=sorted(big))))
+        for si4 in (0, 1):
+            out.append(('big.len=1.si4=%d' % si4, 'c_decode', dict(length=1, si4=si4, window=sorted(big), fixed=sorted(big))))
+            out.append(('big.len=2.si4=%d' % si4, 'c_decode', dict(length=2, si4=si4, window=sorted(big), fixed=sorted(big))))
+            # all 64 output entries in use: first and last bitmap octet symbolic, the six in between all ones
+            out.append(('big.len=8.si4=%d' % si4, 'c_decode', dict(length=8, si4=si4, window=sorted(big), fixed=sorted(big), ones=[1, 2, 3, 4, 5, 6])))
     for L in (0, 1, 2):
         out.append(('si4-call-site.len=%d' % L, 'c_si4', dict(length=L)))
     out.append(('validation', 'c_validate', dict(seed=seed)))
@@ -169,7 +171,7 @@ class _One:
     e = z3.IntVal(1)
 
 
-def c_decode(hid, length, si4, window, fixed=(), timeout_ms=60000):
+def c_decode(hid, length, si4, window, fixed=(), ones=(), timeout_ms=60000):
     j = cjob.CJob(hid, timeout_ms)
     M = module()
     ex = Exec(M, max_iter=1100)
@@ -184,7 +186,7 @@ def c_decode(hid, length, si4, window, fixed=(), timeout_ms=60000):
             cells[a] = (1, llsym.from_bits([memb[a].e, hbit[a].e] + [o.e for o in other[a]]))
         else:
             cells[a] = (1, C(0))
-    mab = [[j.var(ex, 'ma[%d].bit%d' % (i, k), 0, 1) for k in range(8)] for i in range(length)]      # bitmap octets given bit by bit
+    mab = [[(_One if i in ones else j.var(ex, 'ma[%d].bit%d' % (i, k), 0, 1)) for k in range(8)] for i in range(length)]      # bitmap octets given bit by bit
     mem = {freq: cells, ma: {i: (1, llsym.from_bits([b.e for b in mab[i]])) for i in range(length)}}
     hop_pre = {2 * k: (2, j.var(ex, 'hop_pre[%d]' % k, 0, 65535)) for k in range(64)}
     mem[hop] = dict(hop_pre)
@@ -358,7 +360,7 @@ def replay(body):
     for a in sh['window']:
         m = (1 if a in sh.get('fixed', ()) else i.get('ca[%d]' % a, 0)) + 2 * i.get('hopp_pre[%d]' % a, 0) + sum(i.get('mask_bit%d[%d]' % (k, a), 0) << k for k in range(2, 8))
         if m: ca[a] = m
-    mab = [sum(i.get('ma[%d].bit%d' % (k, b), 0) << b for b in range(8)) for k in range(sh['length'])]
+    mab = [255 if k in sh.get('ones', ()) else sum(i.get('ma[%d].bit%d' % (k, b), 0) << b for b in range(8)) for k in range(sh['length'])]
     bad, txt = check_native(sh['length'], sh['si4'], ca, mab)
     if bad is None: return 2, txt
     return (1, 'REPRODUCED on native build (ASan/UBSan): ' + txt) if bad else (0, 'native agrees: ' + txt)
